@@ -48,7 +48,7 @@ const (
 
 var prefixes = []string{goodMod + "@" + goodVers + "/", "example.com/n@v1.0.0/", "Example.com/m@v1.0.0/", "", goodMod + "@" + goodVers, goodMod + "@v1.0.1/"}
 
-var paths = []string{"a", "A", "a/b", "a/", "a//b", "./a", "..", "../x", "../../x", "/abs", "a\\b", "", "go.mod", "GO.MOD", "sub/go.mod", "sub/GO.MOD", "LICENSE", "con", "é", "K", "k", "\u212a", "\u017f", "s", "a/b/", "x.", "sub/", "σ", "ς", "a/../b", "sub/x.go"}
+var paths = []string{"a", "A", "a/b", "a/", "a//b", "./a", "..", "../x", "../../x", "/abs", "a\\b", "", "go.mod", "GO.MOD", "sub/go.mod", "sub/GO.MOD", "LICENSE", "con", "é", "K", "k", "\u212a", "\u017f", "s", "a/b/", "x.", "sub/", "σ", "ς", "a/../b", "sub/x.go", "a//", "a/b///"}
 
 type ent struct {
 	name    string
@@ -333,7 +333,7 @@ func Run(r *fw.Run) {
 	r.Bounds["prefix_variants"] = prefixes
 	r.Bounds["paths"] = len(paths)
 	r.Bounds["declared_size_variants"] = []string{"honest", "smaller", "zero", "half", "larger", "huge-gomod", "huge-license", "huge-total", "maxint64", "near-maxint64", "above-int64"}
-	r.Rule = "every archive of 1..2 entries over (6 prefix variants x 28 paths) and every archive of 3 correctly prefixed entries (quick: over 16 paths, thorough: all 28), each single entry also with every dishonest declared-size variant, and 9 module/version pairs: CheckZip and Unzip on the real archive in a per-case tmpfs sandbox whose target lies three levels deep; oracle: CheckZip == documented restrictions (reference), Unzip succeeds iff CheckZip accepts (honest sizes), dishonest sizes fail, the extracted tree equals the file entries, nothing is created outside the target. non-trivial = archive accepted and extracted"
+	r.Rule = "every archive of 1..2 entries over (6 prefix variants x " + strconv.Itoa(len(paths)) + " paths) and every archive of 3 correctly prefixed entries (quick: over 17 paths, thorough: all of them), each single entry also with every dishonest declared-size variant, and 9 module/version pairs: CheckZip and Unzip on the real archive in a per-case tmpfs sandbox whose target lies three levels deep; oracle: CheckZip == documented restrictions (reference), Unzip succeeds iff CheckZip accepts (honest sizes), dishonest sizes fail, the extracted tree equals the file entries, nothing is created outside the target. non-trivial = archive accepted and extracted"
 	r.Assume = []string{"Linux tmpfs; archive/zip of the standard library reads the archives"}
 	var names []string
 	for _, pf := range prefixes {
@@ -364,7 +364,7 @@ func Run(r *fw.Run) {
 	}
 	p3 := paths
 	if !r.Thorough() {
-		p3 = []string{"a", "A", "a/b", "a/", "go.mod", "GO.MOD", "sub/go.mod", "LICENSE", "K", "k", "a/b/", "sub/", "../x", "", "σ", "ς"}
+		p3 = []string{"a", "A", "a/b", "a/", "a//", "go.mod", "GO.MOD", "sub/go.mod", "LICENSE", "K", "k", "a/b/", "sub/", "../x", "", "σ", "ς"}
 	}
 	for i := range p3 {
 		for j := range p3 {
